@@ -11,13 +11,9 @@ CONFIG = dict(
              "4*size6 <= 840n + n*(n/4+1). Not proved: that work6 IS the number of bytes the Go code allocates - Go's "
              "allocator (size classes, append growth) and collector are not modelled; the theorem is about the cost "
              "function and the `cost` stream shows, two-sidedly and with fixed constants, that it tracks "
-             "runtime.MemStats.TotalAlloc on everything generated. Not in work6: the label decoder rebuilds the name by "
-             "string concatenation at every label, up to 253^2/2 bytes per name and pass (measured 267 bytes per decoded "
-             "name byte, i.e. 33.8 kB allocated per input byte for a fan of 2-byte pointers to a name of 1-byte labels: "
-             "2.2 GB and ~1 s CPU for one 65507-byte option). That cost is linear in the input because of the 253 cap "
-             "(fact obligation fact_labelCap), so the property's 'fixed multiple' holds with the constant B1 = 36000 "
-             "stated in harness/cmd/harness/stream_cost.go; it is carried by the oracle (term 280 per decoded name byte), "
-             "not by a theorem."),
+             "runtime.MemStats.TotalAlloc on everything generated (label-bearing values included, since /repo 6d867a5 builds "
+             "names with strings.Builder: 584 bytes allocated per input byte on the dearest pointer fan, 4.6 per decoded "
+             "name byte; before that fix the per-label string concatenation cost 33.8 kB per input byte)."),
     rule=("oracle c09 (implementation only, adversarial): every input is decoded and re-encoded by the real library in "
           "fresh single-goroutine `harness costprobe` subprocesses (collector off, GOMEMLIMIT, address-space rlimit, "
           "5..20 s watchdog); measured: TotalAlloc delta of decode and of decode+re-encode, reflective deep size (union of "
@@ -30,13 +26,13 @@ CONFIG = dict(
           "thousands of minimal options, zero-length user-class / vendor-class / boot-file-param / vendor-opts / NTP "
           "items, maximal repeated DHCPv4 options (255-byte instances of one code, all codes, zero-length, 1-byte), "
           "structured random messages, and hill climbing on allocated and on retained bytes per input byte. Checked: "
-          "deep <= A1*n+A0 (A1 = 64 pointer-free, 144 general, 2 for v4); alloc <= 320*n + 280*namebytes + 4*n*depth + B0 "
-          "when the input decodes, and the blunt envelope alloc <= n^2/4 + B1*n + B0 always (B1 = 320 / 36000 with "
+          "deep <= A1*n+A0 (A1 = 64 pointer-free, 144 general, 2 for v4); alloc <= 320*n + 6*namebytes + 4*n*depth + B0 "
+          "when the input decodes, and the blunt envelope alloc <= n^2/4 + B1*n + B0 always (B1 = 320 / 1100 with "
           "pointer octets / 16 for v4); decode CPU <= 2 s. The worst measured ratios are recorded as `worst x1000 ...` "
           "tags and samples. stream cost: the same measurement against the Lean cost functions (driver ops cost6, "
           "cost6opt, cost4, costl) with Compare = fixed two-sided inequalities (deep <= 7*size+512, size <= 3*deep+512, "
-          "depth equal, real <= 8*fine+4096, fine <= 2*real+2048, real <= 4*work6+4096, +280*size when the value holds "
-          "names); accept/reject differences are counted, not compared. non-trivial = the input decodes (stream) / "
+          "depth equal, real <= 8*fine+4096, fine <= 2*real+2048, real <= 4*work6+4096, the same constants with and "
+          "without domain names); accept/reject differences are counted, not compared. non-trivial = the input decodes (stream) / "
           "at least 16 bytes (oracle); distinct = distinct inputs"),
     assumptions=["Go nil and empty option values are identified in the model",
                  "allocation is measured with the collector off in a single-goroutine subprocess; Go's allocator and GC are not modelled",
@@ -57,8 +53,6 @@ MANIFEST = dict(
           "inputs up to 65507 bytes."),
     design_ref="DESIGN.md section 6 C09",
     note=NOTE_COMMON + ("The work theorem is about the cost function work6, not about Go's allocator: that work6 tracks real "
-                        "allocation within fixed constants is measured (stream `cost`), not proved. The label decoder's "
-                        "per-name string concatenation (up to 253^2/2 bytes per name) is outside work6 and is bounded only "
-                        "by the oracle (280 bytes per decoded name byte, hence 36000 per input byte)."),
+                        "allocation within fixed constants is measured (stream `cost`), not proved."),
     technique="Lean 4 proof: structural size/depth measures bounded by induction over decoder fuel, generic in the label bound + allocation measurement in GC-off subprocesses (oracle, two-sided model fit)",
 )
